@@ -120,6 +120,8 @@ type DecorateProgram struct {
 	Kinds      []*Resource
 	Tag        string // distinguishes several decorators on one target
 	PlainOwner bool   // attachments carry a plain (non-controller) ownerReference to the target
+	// FinalizeAtOnce: the finalize answer is finalized:true with no attachments straight away
+	FinalizeAtOnce bool
 }
 
 func (dp *DecorateProgram) attachments(req Object) []Object {
@@ -173,7 +175,7 @@ func (dp *DecorateProgram) Finalize(req Object) Object {
 	}
 	resp := dp.Sync(req)
 	resp["attachments"] = []interface{}{}
-	resp["finalized"] = total == 0
+	resp["finalized"] = total == 0 || dp.FinalizeAtOnce
 	return resp
 }
 
@@ -219,6 +221,7 @@ func NewTarget(res *Resource, ns, name string, replicas int, lbls, anns map[stri
 
 type DGenOpts struct {
 	PlainOwner    bool // allow programs whose attachments carry a plain ownerReference to the target
+	AtOnce        bool // allow finalize programs that answer finalized:true with no attachments straight away
 	MaxDecorators int
 	Finalize      int // 0 draw, 1 always, -1 never
 	MaxWorkers    int
@@ -267,6 +270,7 @@ func NewDecoratorSetup(w *World, g DGenOpts) *DSetup {
 		ds.Cfgs = append(ds.Cfgs, c)
 		ds.Opts.Decorators = append(ds.Opts.Decorators, c)
 		dp := &DecorateProgram{Kinds: []*Resource{ak}, Tag: c.Name, PlainOwner: g.PlainOwner && t.Pick(6, "plainowner") == 5}
+		dp.FinalizeAtOnce = g.AtOnce && t.Pick(3, "atonce") == 2
 		ds.Progs[c.Name] = &Program{Sync: dp.Sync, Finalize: dp.Finalize}
 		mustCreate(w.Store, ResDecoratorCtl, "", c.Object(), "setup")
 	}
